@@ -113,9 +113,37 @@ func runHarness(P *Prog, kind string, args []string) (out string, reproduced boo
 	return string(o), false, rerr
 }
 
+// operatorFuncs: obligations of these functions are about the operator tables of C05/C06/C20.
+var operatorFuncs = map[string]bool{
+	"vm.(*runInfoStruct).invokeAddOperator": true, "vm.(*runInfoStruct).invokeMultiplyOperator": true,
+	"vm.(*runInfoStruct).invokeComparisonOperator": true, "vm.(*runInfoStruct).invokeUnaryExpr": true,
+	"vm.equal": true, "vm.toInt64": true, "vm.tryToInt64": true, "vm.toFloat64": true, "vm.tryToFloat64": true,
+	"vm.int64Value": true, "vm.init#1": true, "vm.precedenceOfKinds": true, "vm.isNum": true, "vm.isNil": true,
+}
+
 func tryReplay(P *Prog, v *Verdict, rep map[string]interface{}) bool {
 	w := v.Obl.Witness
 	if w == nil {
+		kind := ""
+		switch {
+		case operatorFuncs[v.Obl.Func]:
+			kind = "operators"
+		case v.Obl.Func == "core.Import$2":
+			kind = "range"
+		case strings.HasPrefix(v.Obl.Func, "astutil."):
+			kind = "walker"
+		}
+		if kind != "" && P != nil && P.RepoDir != "" {
+			out, repro, err := runHarness(P, kind, nil)
+			rep["replay_harness"] = "/verif/replay/" + kind + "/main.go (scratch module with replace github.com/mattn/anko => " + P.RepoDir + ")"
+			rep["replay_kind"] = "bounded search for a failing input on the real code (the solver gave no model): the harness compares the real packages with the reference semantics of the property statement over a grid / corpus; see the harness source"
+			rep["replay_args"] = []string{}
+			rep["replay_output"] = truncate(out, 8000)
+			if err != nil {
+				rep["replay_error"] = err.Error()
+			}
+			return repro
+		}
 		return false
 	}
 	switch w["kind"] {
